@@ -10,7 +10,8 @@ that one translated function is, for ALL arguments, the hand model (`Model/Genet
 `Props/C12.lean` are about — so a semantic edit of any of these functions breaks an obligation here (the proofs are
 in this file, so the broken obligation is named).  `mkOldGC seq starts` / `mkNewGCO mt seq` are the genetic-code
 objects for an ARBITRARY 64-character table `seq` (not only the 27 NCBI tables); starts are `Nat`s cast to `Int`
-(frames are non-negative; negative starts are exercised by the correspondence only).
+in the first theorems; `gen_new_translate_int` lifts that for the new `translate` (EVERY integer start); the old
+`translate` with a negative start walks `range(start, …)` through negative slice bounds — executed by the correspondence only).
 The last section composes: translated source → hand model → specification.
 -/
 namespace CogentModel.C12Gen
@@ -210,6 +211,44 @@ theorem gen_new_translate_str (mt : MT) (seq dna : List Char) (start : Nat) (rc 
   gen_new_translate mt seq (Dna.ofStr dna) start rc
 
 example : newTranslate newDna (NCBI.tableOf []) ['A', 'T', 'G', 'T', 'A', 'A'] 0 false = ['M', '*'] := by decide +kernel
+
+/-- The `Nat`-start restriction lifted: for EVERY integer `start` (negative ones count from the end and are clamped, as
+Python slices do) the translated new `translate` first takes `dna[start:]` — `start = 0` included, where the code skips
+the slice — and then translates that from frame 0. -/
+theorem new_translate_shift (g : NewGCO) (d : Dna) (start : Int) (rc : Bool) :
+    new_translate g d start rc = new_translate g (Dna.slice d (some start) none) 0 rc := by
+  unfold new_translate
+  have h : (if start ≠ 0 then Dna.slice d (some start) none else d) = Dna.slice d (some start) none := by
+    split
+    · rfl
+    · rename_i h
+      have h0 : start = ((0 : Nat) : Int) := by omega
+      rw [h0]
+      simp only [Dna.slice, pySlice_n_, List.drop_zero]
+  rw [h]
+  simp
+
+example : new_translate (mkNewGCO newDna (NCBI.tableOf [])) (Dna.ofStr ['C', 'C', 'A', 'T', 'G', 'A']) (-4) false = .ok ['M'] := by
+  decide +kernel
+
+/-- translated new `translate` = the hand model for EVERY integer start (negative, zero, beyond the end), both strands,
+`str` or index array: the hand model applied to the Python slice `dna[start:]`. -/
+theorem gen_new_translate_int (mt : MT) (seq : List Char) (d : Dna) (start : Int) (rc : Bool) :
+    new_translate (mkNewGCO mt seq) d start rc =
+      .ok ((mkNewGC mt seq).translateWith (d.alpha.getD (mkNewGC mt seq).alpha) (pySlice d.chars (some start) none) 0 rc) := by
+  rw [new_translate_shift]
+  exact gen_new_translate mt seq (Dna.slice d (some start) none) 0 rc
+
+example : pySlice ['C', 'C', 'A', 'T', 'G', 'A'] (some (-4 : Int)) none = ['A', 'T', 'G', 'A'] := by decide
+
+/-- … so a NEGATIVE start `-k` translates the last `k` characters (the whole text when `k` exceeds its length). -/
+theorem gen_new_translate_neg_str (mt : MT) (seq dna : List Char) (k : Nat) (hk : 0 < k) (rc : Bool) :
+    new_translate (mkNewGCO mt seq) (Dna.ofStr dna) (-(k : Int)) rc = .ok (newTranslate mt seq (dna.drop (dna.length - k)) 0 rc) := by
+  rw [gen_new_translate_int]
+  simp only [Dna.ofStr, pySlice_neg_ _ _ hk]
+  rfl
+
+example : (0 : Nat) < 4 := by decide
 
 /-- translated `GeneticCode.sixframes` (new; a generator over `itertools.product(("+", "-"), range(3))`) = the hand
 model (strand sign as "+" / "-"). -/
